@@ -300,21 +300,35 @@ func (c *compiler) evalUpdateIndex(left, index, value interface{}) error {
 	rv := reflect.ValueOf(left)
 	switch rv.Kind() {
 	case reflect.Map:
-		rv.SetMapIndex(reflect.ValueOf(index), reflect.ValueOf(value))
+		if rv.IsNil() {
+			return fmt.Errorf("cannot assign to an entry of a nil map (%T)", left)
+		}
+		mt := rv.Type()
+		kv := reflect.ValueOf(index)
+		if !kv.IsValid() || !kv.Type().AssignableTo(mt.Key()) {
+			return fmt.Errorf("cannot use %v (%T) as %s value in map index", index, index, mt.Key())
+		}
+		vv := reflect.ValueOf(value)
+		if vv.IsValid() && !vv.Type().AssignableTo(mt.Elem()) {
+			return fmt.Errorf("cannot use '%v' (untyped %s constant) as %s value in assignment", value, vv.Type(), mt.Elem())
+		}
+		rv.SetMapIndex(kv, vv)
 	case reflect.Array, reflect.Slice:
 		if i, ok := index.(int); ok {
-			if rv.Len()-1 < i {
+			if i < 0 || rv.Len()-1 < i {
 				err = fmt.Errorf("array index out of bounds, got index %d, while array size is %v", i, rv.Len())
 			} else {
-				elemType := reflect.TypeOf(left).Elem()
-				if elemType.Kind() != reflect.Interface {
-					t := reflect.ValueOf(value).Type()
-					if elemType != t {
-						err = fmt.Errorf("cannot use '%v' (untyped %s constant) as %s value in assignment", value, t, elemType)
-					}
+				el := rv.Index(i)
+				vv := reflect.ValueOf(value)
+				if !vv.IsValid() {
+					vv = reflect.Zero(el.Type())
 				}
-				if err == nil {
-					rv.Index(i).Set(reflect.ValueOf(value))
+				if !el.CanSet() {
+					err = fmt.Errorf("cannot assign to an element of %T (not addressable)", left)
+				} else if !vv.Type().AssignableTo(el.Type()) {
+					err = fmt.Errorf("cannot use '%v' (untyped %s constant) as %s value in assignment", value, vv.Type(), el.Type())
+				} else {
+					el.Set(vv)
 				}
 			}
 		} else {
